@@ -247,11 +247,12 @@ impl Gen {
                     let mut defs = vec![];
                     for _ in 0..self.r.gen_range(1..3) {
                         let an = if self.r.gen_bool(0.7) { self.attrs.choose(&mut self.r).unwrap().clone() } else { self.ncname() };
-                        let ty = *["CDATA", "ID", "IDREF", "IDREFS", "NMTOKEN", "NMTOKENS", "ENUM", "ENTITY"]
+                        let ty = *["CDATA", "ID", "IDREF", "IDREFS", "NMTOKEN", "NMTOKENS", "ENUM", "ENTITY", "NOTATION"]
                             .choose(&mut self.r)
                             .unwrap();
                         let dk = *["IMPLIED", "REQUIRED", "VALUE", "VALUE", "FIXED"].choose(&mut self.r).unwrap();
-                        let en: Vec<J> = if ty == "ENUM" { vec![cp(&[112]), cp(&[113, 49])] } else { vec![] };
+                        let en: Vec<J> = if ty == "ENUM" { vec![cp(&[112]), cp(&[113, 49])] }
+                            else if ty == "NOTATION" { vec![cp(&[103]), cp(&[112, 110])] } else { vec![] };
                         let dv: Vec<J> = if dk == "VALUE" || dk == "FIXED" {
                             self.items(5, false).into_iter().filter(|x| !(x["t"] == "c" && x["c"] == 60)).collect()
                         } else {
@@ -488,6 +489,89 @@ pub fn record(args: &[String]) -> i32 {
         return 0;
     }
     for i in 0..count {
+        if i % 12 == 5 {
+            // targeted families that a random writer meets too rarely (one of four, in turn)
+            let fam = (i / 12) % 4;
+            let root = g.ncname();
+            let e = g.ncname();
+            let an = g.ncname();
+            let st = style(&mut g.r);
+            let mut toks: Vec<J> = vec![];
+            let name;
+            match fam {
+                0 => {
+                    // the same general entity declared twice: the FIRST declaration binds (4.2) - its value, and the
+                    // well-formedness constraints of a reference to it, are those of the first
+                    name = "dup-entity";
+                    let plain = |c: u32| json!([{"t": "c", "c": c}]);
+                    let markup = json!([{"t": "r", "c": 60}, {"t": "c", "c": 98}, {"t": "c", "c": 47}, {"t": "c", "c": 62}]);
+                    let nn = g.ncname();
+                    toks.push(json!({"k": "doctype", "n": cp(&root), "ext": "none", "pub": [], "sys": [], "subset": true}));
+                    let kind = g.r.gen_range(0..5);
+                    let un = |g: &mut Gen| json!({"k": "uentity", "n": cp(&e), "ext": "system", "pub": [], "sys": cp(&g.literal(false)), "ndata": cp(&nn)});
+                    match kind {
+                        0 => { toks.push(json!({"k": "entity", "n": cp(&e), "v": plain(118)})); toks.push(json!({"k": "entity", "n": cp(&e), "v": plain(119)})); }
+                        1 => { toks.push(json!({"k": "notation", "n": cp(&nn), "ext": "system", "pub": [], "sys": cp(&g.literal(false))}));
+                               let u = un(&mut g); toks.push(u); toks.push(json!({"k": "entity", "n": cp(&e), "v": plain(120)})); }
+                        2 => { toks.push(json!({"k": "notation", "n": cp(&nn), "ext": "system", "pub": [], "sys": cp(&g.literal(false))}));
+                               toks.push(json!({"k": "entity", "n": cp(&e), "v": plain(120)})); let u = un(&mut g); toks.push(u); }
+                        3 => { toks.push(json!({"k": "entity", "n": cp(&e), "v": markup})); toks.push(json!({"k": "entity", "n": cp(&e), "v": plain(120)})); }
+                        _ => { toks.push(json!({"k": "entity", "n": cp(&e), "v": plain(120)})); toks.push(json!({"k": "entity", "n": cp(&e), "v": markup})); }
+                    }
+                    toks.push(json!({"k": "dtdend"}));
+                    let eref = json!({"t": "e", "n": cp(&e)});
+                    if g.r.gen_bool(0.5) {
+                        toks.push(json!({"k": "stag", "n": cp(&root), "attrs": [], "lex": "ok"}));
+                        toks.push(json!({"k": "text", "items": [{"t": "c", "c": 120}, eref]}));
+                    } else {
+                        toks.push(json!({"k": "stag", "n": cp(&root), "lex": "ok", "attrs": [{"n": cp(&an), "v": [{"t": "c", "c": 121}, eref]}]}));
+                    }
+                    toks.push(json!({"k": "etag", "n": cp(&root)}));
+                }
+                1 => {
+                    // "]]>" in character data, with more brackets in front of it
+                    name = "cdata-end";
+                    let k = g.r.gen_range(1..5);
+                    let mut items = vec![];
+                    if g.r.gen_bool(0.5) { items.push(json!({"t": "c", "c": 97})); items.push(json!({"t": "c", "c": 91})); }
+                    for _ in 0..k { items.push(json!({"t": "c", "c": 93})); }
+                    items.push(json!({"t": "c", "c": 62}));
+                    if g.r.gen_bool(0.5) { items.push(json!({"t": "c", "c": 100})); }
+                    toks.push(json!({"k": "stag", "n": cp(&root), "attrs": [], "lex": "ok"}));
+                    toks.push(json!({"k": "text", "items": items}));
+                    toks.push(json!({"k": "etag", "n": cp(&root)}));
+                }
+                2 => {
+                    // element type declarations: content specs of the grammar and near misses
+                    name = "content-spec";
+                    let specs: [&str; 13] = ["EMPTY", "ANY", "(#PCDATA)", "(#PCDATA|a|b)*", "(a,b?)", "((a|b)*,c+)", "(a|b)*",
+                                             "(#PCDATA|a)", "(#PCDATA|a|b)", "(#PCDATA|a)+", "(a,b|c)", "(a|b)*?", "()"];
+                    let v: Vec<u32> = specs[g.r.gen_range(0..specs.len())].chars().map(|c| c as u32).collect();
+                    toks.push(json!({"k": "doctype", "n": cp(&root), "ext": "none", "pub": [], "sys": [], "subset": true}));
+                    toks.push(json!({"k": "elemdecl", "n": cp(&root), "v": cp(&v)}));
+                    toks.push(json!({"k": "dtdend"}));
+                    toks.push(json!({"k": "stag", "n": cp(&root), "attrs": [], "lex": "ok"}));
+                    toks.push(json!({"k": "etag", "n": cp(&root)}));
+                }
+                _ => {
+                    // attribute types that carry a name list: NOTATION (keyword + list) next to a plain enumeration
+                    name = "notation-type";
+                    let dk = *["IMPLIED", "REQUIRED", "VALUE", "FIXED"].choose(&mut g.r).unwrap();
+                    let dv = if dk == "VALUE" || dk == "FIXED" { json!([{"t": "c", "c": 103}]) } else { json!([]) };
+                    toks.push(json!({"k": "doctype", "n": cp(&root), "ext": "none", "pub": [], "sys": [], "subset": true}));
+                    toks.push(json!({"k": "notation", "n": cp(&[103]), "ext": "system", "pub": [], "sys": cp(&g.literal(false))}));
+                    toks.push(json!({"k": "attlist", "el": cp(&root), "defs": [
+                        {"n": cp(&an), "ty": "NOTATION", "en": [cp(&[103]), cp(&[112, 110])], "dk": dk, "dv": dv},
+                        {"n": cp(&e), "ty": "ENUM", "en": [cp(&[103]), cp(&[112, 110])], "dk": "IMPLIED", "dv": []}]}));
+                    toks.push(json!({"k": "dtdend"}));
+                    toks.push(json!({"k": "stag", "n": cp(&root), "attrs": [], "lex": "ok"}));
+                    toks.push(json!({"k": "etag", "n": cp(&root)}));
+                }
+            }
+            toks.push(json!({"k": "end"}));
+            writeln!(w, "{}", json!({"toks": toks, "style": st, "edits": [name]})).unwrap();
+            continue;
+        }
         if i % 12 == 11 {
             // an entity whose replacement text holds markup (declared as `&#60;b/>`), possibly reached through a
             // second entity, referenced in content and in an attribute value of one document - in either order
